@@ -50,4 +50,37 @@ pub fn all() {
     assert_send_sync::<TlsCipherSuiteID>();
     assert_send_sync::<NamedGroup>();
     assert_send_sync::<SignatureScheme>();
+    // every remaining public struct / enum / registry newtype of the crate (list taken from `pub struct` / `pub enum` / newtype_enum! in src/)
+    assert_send_sync::<CertificateStatusType>();
+    assert_send_sync::<CipherSuiteNotFound>();
+    assert_send_sync::<CtExtensions>();
+    assert_send_sync::<CtLogID>();
+    assert_send_sync::<CtVersion>();
+    assert_send_sync::<DTLSMessageHandshakeBody>();
+    assert_send_sync::<ECCurve>();
+    assert_send_sync::<ECCurveType>();
+    assert_send_sync::<ECParametersContent>();
+    assert_send_sync::<ExplicitPrimeContent>();
+    assert_send_sync::<HashAlgorithm>();
+    assert_send_sync::<KeyUpdateRequest>();
+    assert_send_sync::<PskKeyExchangeMode>();
+    assert_send_sync::<RawCertificate>();
+    assert_send_sync::<SNIType>();
+    assert_send_sync::<SignAlgorithm>();
+    assert_send_sync::<SignatureAndHashAlgorithm>();
+    assert_send_sync::<TlsAlertDescription>();
+    assert_send_sync::<TlsAlertSeverity>();
+    assert_send_sync::<TlsCipherAu>();
+    assert_send_sync::<TlsCipherEnc>();
+    assert_send_sync::<TlsCipherEncMode>();
+    assert_send_sync::<TlsCipherKx>();
+    assert_send_sync::<TlsCipherMac>();
+    assert_send_sync::<TlsCompressionID>();
+    assert_send_sync::<TlsEncryptedContent>();
+    assert_send_sync::<TlsExtensionType>();
+    assert_send_sync::<TlsHandshakeType>();
+    assert_send_sync::<TlsHeartbeatMessageType>();
+    assert_send_sync::<TlsPRF>();
+    assert_send_sync::<TlsRecordType>();
+    assert_send_sync::<Result<&'static TlsCipherSuite, CipherSuiteNotFound>>();
 }
